@@ -1192,6 +1192,11 @@ func (e *Exec) step(st *State, fr *Frame, b *ssa.BasicBlock, i int, in ssa.Instr
 		if e.PanicHook != nil {
 			e.PanicHook(e, st, fr, in, pv)
 		}
+		if st.ghost == nil {
+			st.ghost = map[string]*Term{}
+		}
+		st.ghost["explicit-panic-in"] = StrLit(shortName(fr.fn)) // a panic statement of this function (not of a callee, not a run-time check)
+		e.noExplicitPanicCheck(st, fr, in.Block())
 		e.doPanic(st, fr, pv)
 		return false, true
 	case *ssa.Defer:
